@@ -116,32 +116,41 @@ def n_extra(items: list) -> int:
     return n
 
 
+_PAD = " "       # what stands between a marker and the markup's content: " " or "" (glued layout)
+
+
+def set_glued(on: bool) -> None:
+    """Layout switch of the printer: `{{- v0 -}}` or `{{-v0-}}`."""
+    global _PAD
+    _PAD = "" if on else " "
+
+
 def leaf_src(kind: str, w: int | None, l: str, r: str, xs: Iterator[str] = iter(())) -> str:
     if kind == "out":
-        return f"{{{{{l} v{w} {r}}}}}"
+        return f"{{{{{l}{_PAD}v{w}{_PAD}{r}}}}}"
     if kind == "liqecho":
-        return f"{{%{l} liquid echo v{w} {r}%}}"
+        return f"{{%{l}{_PAD}liquid echo v{w}{_PAD}{r}%}}"
     if kind == "cmt1":
-        return f"{{#{l} c {r}#}}"
+        return f"{{#{l}{_PAD}c{_PAD}{r}#}}"
     if kind == "cmt2":
         x = [next(xs) for _ in range(2)]
-        return f"{{%{l} comment {x[0]}%}} c {{%{x[1]} endcomment {r}%}}"
+        return f"{{%{l}{_PAD}comment{_PAD}{x[0]}%}} c {{%{x[1]}{_PAD}endcomment{_PAD}{r}%}}"
     if kind == "cmt2n":
         x = [next(xs) for _ in range(6)]
-        return (f"{{%{l} comment {x[0]}%}} a {{%{x[1]} comment {x[2]}%}} b {{%{x[3]} endcomment {x[4]}%}}"
-                f" c {{%{x[5]} endcomment {r}%}}")
+        return (f"{{%{l}{_PAD}comment{_PAD}{x[0]}%}} a {{%{x[1]}{_PAD}comment{_PAD}{x[2]}%}} b {{%{x[3]}{_PAD}endcomment{_PAD}{x[4]}%}}"
+                f" c {{%{x[5]}{_PAD}endcomment{_PAD}{r}%}}")
     if kind == "cmt2r":
         x = [next(xs) for _ in range(8)]
-        return (f"{{%{l} comment {x[0]}%}} a {{%{x[1]} raw {x[2]}%}} {{%{x[3]} endcomment {x[4]}%}} "
-                f"{{%{x[5]} endraw {x[6]}%}} b {{%{x[7]} endcomment {r}%}}")
+        return (f"{{%{l}{_PAD}comment{_PAD}{x[0]}%}} a {{%{x[1]}{_PAD}raw{_PAD}{x[2]}%}} {{%{x[3]}{_PAD}endcomment{_PAD}{x[4]}%}} "
+                f"{{%{x[5]}{_PAD}endraw{_PAD}{x[6]}%}} b {{%{x[7]}{_PAD}endcomment{_PAD}{r}%}}")
     if kind == "cmt3":
-        return f"{{%{l} # c {r}%}}"
+        return f"{{%{l}{_PAD}# c{_PAD}{r}%}}"
     if kind == "liqassign":
-        return f"{{%{l} liquid assign z = 1 {r}%}}"
+        return f"{{%{l}{_PAD}liquid assign z = 1{_PAD}{r}%}}"
     if kind == "echo":
-        return f"{{%{l} echo v{w} {r}%}}"
+        return f"{{%{l}{_PAD}echo v{w}{_PAD}{r}%}}"
     if kind == "assign":
-        return f"{{%{l} assign z = 1 {r}%}}"
+        return f"{{%{l}{_PAD}assign z = 1{_PAD}{r}%}}"
     raise ValueError(kind)
 
 
@@ -159,23 +168,23 @@ def to_source(items: list, ms: Iterator[str], xs: Iterator[str] = iter(())) -> s
             out.append(leaf_src(it[2], it[3], l, r, xs))
         elif it[0] == "R":
             w0, w1, w2, w3 = next(ms), next(ms), next(ms), next(ms)
-            out.append(f"{{%{w0} raw {w1}%}}{it[1]}{{%{w2} endraw {w3}%}}")
+            out.append(f"{{%{w0}{_PAD}raw{_PAD}{w1}%}}{it[1]}{{%{w2}{_PAD}endraw{_PAD}{w3}%}}")
         else:
             _, kind, p, body, secs = it
             l, r = next(ms), next(ms)
-            out.append(f"{{%{l} {OPEN[kind].format(p=p)} {r}%}}")
+            out.append(f"{{%{l}{_PAD}{OPEN[kind].format(p=p)}{_PAD}{r}%}}")
             out.append(to_source(body, ms, xs))
             for g, b in secs:
                 l, r = next(ms), next(ms)
                 if g[0] == "cond":
-                    out.append(f"{{%{l} elsif b{g[1]} {r}%}}")
+                    out.append(f"{{%{l}{_PAD}elsif b{g[1]}{_PAD}{r}%}}")
                 elif g[0] == "when":
-                    out.append(f"{{%{l} when {', '.join(map(str, g[1]))} {r}%}}")
+                    out.append(f"{{%{l}{_PAD}when {', '.join(map(str, g[1]))}{_PAD}{r}%}}")
                 else:
-                    out.append(f"{{%{l} else {r}%}}")
+                    out.append(f"{{%{l}{_PAD}else{_PAD}{r}%}}")
                 out.append(to_source(b, ms, xs))
             l, r = next(ms), next(ms)
-            out.append(f"{{%{l} end{kind} {r}%}}")
+            out.append(f"{{%{l}{_PAD}end{kind}{_PAD}{r}%}}")
     return "".join(out)
 
 
@@ -629,6 +638,8 @@ def small_programs(r: Any, max_pos: int) -> list[list]:
 
 CORPUS: list[list] = [
     # past defects / boundary shapes, run first (with structured + random markers)
+    [("B", "capture", 2, [("C", " \n ")], []), ("C", "["), ("L", False, "out", 2), ("C", "]")],       # captured whitespace
+    [("B", "if", 0, [("B", "capture", 2, [("C", "\n")], [])], []), ("C", "a"), ("L", True, "echo", 2), ("C", "b")],
     [("C", "Hello,  "), ("L", False, "out", 0), ("C", " \n "), ("B", "if", 0, [("C", " x ")], []), ("C", "\n!")],
     [("B", "if", 0, [("R", "hello")], [])],                                       # defect 18
     [("B", "for", 0, [("R", " hi ")], []), ("C", "\n")],
@@ -1059,15 +1070,16 @@ def main(chk: C.Check, build: C.Build) -> None:
     fail_i = [0]
     runner = GroupRunner(chk, "Trim.observe (render output, ContentNode trim pairs, RawNode texts)")
     stats = {"programs": 0, "renders": 0, "parses": 0, "exhaustive_programs": 0, "syntax_errors": 0,
-             "content_tokens_split_by_lexer": 0, "split_programs": 0, "suppressed_outputs": 0, "history_renders": 0, "failed_parses_interleaved": 0,
+             "content_tokens_split_by_lexer": 0, "split_programs": 0, "suppressed_outputs": 0, "history_renders": 0, "glued_layout_programs": 0, "failed_parses_interleaved": 0,
              "marker_positions_max": 0, "assignments": 0}
     nontrivial: set[str] = set()
     samples: list[dict[str, Any]] = []
     evaluations = 0
 
     def run_program(pi: int, origin: str, items: list, do_split: bool,
-                    fixed_datas: list[dict[str, Any]] | None = None) -> None:
+                    fixed_datas: list[dict[str, Any]] | None = None, glue: bool = False) -> None:
         nonlocal evaluations
+        set_glued(glue)          # layout of the printer: `{{- v0 -}}` or `{{-v0-}}`
         npos = n_positions(items)
         nx = n_extra(items)
         stats["marker_positions_max"] = max(stats["marker_positions_max"], npos + nx)
@@ -1077,9 +1089,11 @@ def main(chk: C.Check, build: C.Build) -> None:
             msets = msets[:6]
         if origin == "branch" and not thorough:
             msets = msets[:4] + msets[-nrand:]           # all-same x4 + seeded
-        if do_split:
+        if do_split or glue:
             msets = msets[:: max(1, len(msets) // (40 if thorough else 12))]
             exh = False
+        if glue:                 # every marker kind glued to every word at least once
+            msets = [[m] * (npos + nx) for m in MARKS] + msets
         if fixed_datas is not None:
             datas = fixed_datas
         else:
@@ -1092,6 +1106,7 @@ def main(chk: C.Check, build: C.Build) -> None:
         stats["exhaustive_programs"] += exh
         stats["programs"] += 1
         stats["split_programs"] += do_split
+        stats["glued_layout_programs"] += glue
         tbl = Table()
         outc: dict[str, int] = {}                       # distinct outcomes, as Coq terms
         exp: dict[tuple, list[int]] = {}                # (dt, sup, di) -> outcome index per assignment
@@ -1101,7 +1116,7 @@ def main(chk: C.Check, build: C.Build) -> None:
         ref_erased = [erase(x) for x in ref_out]
         texts_expected: list[str] | None = None
         nums = []
-        sfx = f"_{pi}{'s' if do_split else ''}"
+        sfx = f"_{pi}{'s' if do_split else ''}{'g' if glue else ''}"
         extra_items: list[dict[str, Any]] = []
         recorded: dict[tuple, str] = {}                 # (src, dt, di, sup) -> model-checked output
         meta: dict[tuple, tuple] = {}                   # (src, dt) -> (assignment number, pairs code, raw indexes)
@@ -1115,7 +1130,7 @@ def main(chk: C.Check, build: C.Build) -> None:
         outcome_class: str | None = None
 
         def class_changed(src: str, cls: str, detail: str) -> None:
-            chk.finding("oracle:marker-changes-outcome",
+            chk.finding("oracle:marker-glued-to-word" if glue else "oracle:marker-changes-outcome",
                         f"a marker assignment changes what the template IS, not its whitespace: {src!r} is {cls} "
                         f"({detail[:200]}) while the same tokens with other markers are {outcome_class}",
                         {"source": src, "outcome": cls, "detail": detail, "other_assignments": outcome_class,
@@ -1251,7 +1266,7 @@ def main(chk: C.Check, build: C.Build) -> None:
         # the three default_trim modes interleaved in varying orders, fresh
         # parses and templates kept from earlier rounds; every render must give
         # what the first (model-checked) render of that configuration gave
-        if origin != "illformed" and not do_split and meta:
+        if origin != "illformed" and not do_split and not glue and meta:
             ok_srcs = list(dict.fromkeys(k[0] for k in meta))
             hist = ok_srcs[:1] + r.sample(ok_srcs[1:], min(2, len(ok_srcs) - 1))
             hist = [x for x in hist if all((x, dt) in meta for dt in DTS)]
@@ -1314,8 +1329,8 @@ def main(chk: C.Check, build: C.Build) -> None:
         defs.append(f"Definition TBL{sfx} : list str := {tbl.coq()}.")
         defs.append(f"Definition OUTC{sfx} : list outcome := {C.clist(outc, 'outcome')}.")
         defs.append(f"Definition NS{sfx} : list N := {C.clist(map(str, nums), 'N')}.")
-        runner.submit({"tag": f"c18_{os.getpid()}_p{pi:03d}{'s' if do_split else ''}", "defs": "\n".join(defs), "items": gitems})
-        if len(samples) < 5 and origin in ("random", "small") and pi % 7 == 0 and not do_split:
+        runner.submit({"tag": f"c18_{os.getpid()}_p{pi:03d}{'s' if do_split else ''}{'g' if glue else ''}", "defs": "\n".join(defs), "items": gitems})
+        if len(samples) < 5 and origin in ("random", "small") and pi % 7 == 0 and not do_split and not glue:
             ms = msets[len(msets) // 2]
             src = to_source(items, iter(ms[:npos]), iter(ms[npos:]))
             samples.append({"source": src, "default_trim": "-", "suppress": True, "data": datas[0],
@@ -1328,6 +1343,9 @@ def main(chk: C.Check, build: C.Build) -> None:
         run_program(pi, origin, items, False, fixed)
         if origin in ("corpus", "random") and (thorough or pi % 2 == 0):
             run_program(pi, origin, items, True)
+        if origin in ("corpus", "small", "random") and (thorough or pi % (4 if origin == "random" else 2) == 1):
+            run_program(pi, origin, items, False, None, glue=True)   # markers written directly against the words
+    set_glued(False)
 
     # ---- Environment.trim on its own: every (default_trim, left, right) per text
     W = impl.W
@@ -1400,6 +1418,64 @@ def main(chk: C.Check, build: C.Build) -> None:
             sig = "oracle:suppression-removed-text"
             chk.finding(sig, f"blank-block suppression removed text: {src!r} renders {outs[0]!r}, without suppression {outs[1]!r}",
                         {"source": src, "suppress_on": outs[0], "suppress_off": outs[1]})
+
+    # ---- user-defined tags, written as docs/custom_tags.md describes: a node whose
+    # render_to_output writes to the buffer must print wherever it stands
+    from liquid2 import Node as _Node, Tag as _Tag
+
+    class HelloNode(_Node):
+        def render_to_output(self, context: Any, buffer: Any) -> int:
+            return buffer.write("Hello")
+
+    class HelloTag(_Tag):
+        block = False
+
+        def parse(self, stream: Any) -> Any:
+            return HelloNode(stream.current())
+
+    class QuietNode(_Node):                       # updates the context only; says so
+        def __init__(self, token: Any) -> None:
+            super().__init__(token)
+            self.blank = True
+
+        def render_to_output(self, context: Any, buffer: Any) -> int:
+            context.assign("q", "Q")
+            return 0
+
+    class QuietTag(_Tag):
+        block = False
+
+        def parse(self, stream: Any) -> Any:
+            return QuietNode(stream.current())
+
+    custom_tpl = ("[{%<L> hello <R>%}|{%<L> if t <R>%}{%<L> hello <R>%}{%<L> endif <R>%}|"
+                  "{%<L> for i in two <R>%} {%<L> hello <R>%} {%<L> endfor <R>%}|"
+                  "{%<L> with w: 1 <R>%} {%<L> case k <R>%} {%<L> when 1 <R>%}\n{%<L> hello <R>%}{%<L> endcase <R>%}{%<L> endwith <R>%}|"
+                  "{%<L> unless f <R>%} {%<L> quiet <R>%} {%<L> hello <R>%}{%<L> endunless <R>%}|"
+                  "{%<L> if t <R>%} {%<L> quiet <R>%} {%<L> endif <R>%}{{<L> q <R>}}|"
+                  "{%<L> capture c <R>%}{%<L> if t <R>%}{%<L> hello <R>%}{%<L> endif <R>%}{%<L> endcapture <R>%}{{<L> c <R>}}]")
+    npos_c = custom_tpl.count("<L>") + custom_tpl.count("<R>")
+    d_c = {"t": True, "f": False, "two": [0, 0], "k": 1}
+    custom_stats = {"renders": 0}
+    for ms in [[m] * npos_c for m in MARKS] + [rf.choices(MARKS, k=npos_c) for _ in range(8 if thorough else 3)]:
+        src = fill_markers(custom_tpl, ms)
+        for dt in DTS:
+            env = Environment(default_trim=impl.wmap[dt])
+            env.tags["hello"] = HelloTag(env)
+            env.tags["quiet"] = QuietTag(env)
+            t = env.from_string(src)
+            for sup in (False, True):
+                env.suppress_blank_control_flow_blocks = sup
+                for path, o in (("render", t.render(**d_c)), ("render_async", run_coro(t.render_async(**d_c)))):
+                    custom_stats["renders"] += 1
+                    evaluations += 1
+                    if erase(o) != "[Hello|Hello|HelloHello|Hello|Hello|Q|Hello]":
+                        chk.finding("oracle:suppression-removed-text",
+                                    f"a user-defined tag that writes 'Hello' (docs/custom_tags.md) lost its output: {path}() of {src!r} "
+                                    f"default_trim={dt!r} suppress={sup} gives {o!r}",
+                                    {"source": src, "default_trim": dt, "suppress": sup, "output": o, "path": path,
+                                     "expected_without_whitespace": "[Hello|Hello|HelloHello|Hello|Hello|Q|Hello]"})
+    stats["custom_tags"] = custom_stats
 
     # ---- tablerow (shopify environment): never blank, whatever its cell body
     from liquid2.shopify import Environment as ShopifyEnvironment
